@@ -11,7 +11,10 @@ import subprocess
 import sys
 import time
 
-VERIF = os.path.dirname(os.path.dirname(os.path.abspath(__file__)))
+HERE = os.path.dirname(os.path.dirname(os.path.abspath(__file__)))    # the tree whose coq/ and tools/ are tested
+VERIF = HERE
+while not os.path.exists(os.path.join(VERIF, "lib.py")) and VERIF != "/":
+    VERIF = os.path.dirname(VERIF)                                      # (a private development copy under .build/)
 sys.path.insert(0, VERIF)
 import lib  # noqa: E402
 
@@ -45,6 +48,29 @@ MUTATIONS = [
      "Self::add(acc1, acc3)", "Self::add(acc1, acc1)", 0, ["gen_Avx2_i8_sum_to_register_ok", "gen_Neon_f32_sum_to_register_ok"]),
     ("macro: apply_dense! pairs lane b of l1 with lane a of l2", D + "core_simd_api.rs",
      "b: $op($l1.b, $l2.b),", "b: $op($l1.b, $l2.a),", 0, ["gen_Avx2_i8_add_dense_ok", "gen_Avx512_f32_add_dense_ok", "gen_Neon_u64_add_dense_ok"]),
+    # ---- the scalar-loop fragment (Model/RustLoops.v): integer div, NEON i64/u64 mul / max / min ----
+    ("loop body: Avx2 i8 div computes l2 / l1", D + "impl_avx2.rs",
+     "result[idx] = l1.wrapping_div(l2);", "result[idx] = l2.wrapping_div(l1);", 0, ["gen_Avx2_i8_div_ok"]),
+    ("store index: Avx2 i16 div writes result[idx ^ 1]", D + "impl_avx2.rs",
+     "result[idx] = l1.wrapping_div(l2);", "result[idx ^ 1] = l1.wrapping_div(l2);", 1, ["gen_Avx2_i16_div_ok"]),
+    ("lane count: Avx2 i8 div unpacks l2 as [i8; 16]", D + "impl_avx2.rs",
+     "let l2_unpacked = mem::transmute::<_, [i8; 32]>(l2);", "let l2_unpacked = mem::transmute::<_, [i8; 16]>(l2);", 0, None),   # sizes differ: translator error
+    ("lane count: Avx512 u8 div collects into [0u8; 32]", D + "impl_avx512.rs",
+     "let mut result = [0u8; 64];", "let mut result = [0u8; 32];", 0, None),   # transmute to the register: sizes differ
+    ("panic behaviour: Avx512 u16 div clamps the divisor (never panics)", D + "impl_avx512.rs",
+     "result[idx] = l1.wrapping_div(l2);", "result[idx] = l1.wrapping_div(l2.max(1));", 5, ["gen_Avx512_u16_div_ok"]),
+    ("zip operands swapped in the Avx512 i64 div loop", D + "impl_avx512.rs",
+     "in zip(l1_unpacked, l2_unpacked).enumerate()", "in zip(l2_unpacked, l1_unpacked).enumerate()", 3, ["gen_Avx512_i64_div_ok"]),
+    ("loop shape leaves the fragment: Avx512 i32 div skips lane 0 (must not silently become untranslated)", D + "impl_avx512.rs",
+     "in zip(l1_unpacked, l2_unpacked).enumerate()", "in zip(l1_unpacked, l2_unpacked).enumerate().skip(1)", 2, ["gen_priority_covered"]),
+    ("NEON i64 max uses core::cmp::min", D + "impl_neon.rs",
+     "result[idx] = core::cmp::max(l1, l2);", "result[idx] = core::cmp::min(l1, l2);", 0, ["gen_Neon_i64_max_ok"]),
+    ("NEON u64 mul adds", D + "impl_neon.rs",
+     "result[idx] = AutoMath::mul(l1, l2);", "result[idx] = AutoMath::add(l1, l2);", 1, ["gen_Neon_u64_mul_ok"]),
+    ("NEON i8 div multiplies (and no longer panics on a zero divisor)", D + "impl_neon.rs",
+     "result[idx] = AutoMath::div(l1, l2);", "result[idx] = AutoMath::mul(l1, l2);", 0, ["gen_Neon_i8_div_ok"]),
+    ("Fallback div delegates to Math::mul", D + "impl_fallback.rs",
+     "AutoMath::div(l1, l2)", "AutoMath::mul(l1, l2)", 0, ["gen_Fallback_div_ok"]),
 ]
 
 
@@ -79,11 +105,11 @@ def main():
         return 2
     shutil.rmtree(CQ, ignore_errors=True)
     with lib.build_lock():                      # a consistent snapshot of the shared tree
-        shutil.copytree(os.path.join(VERIF, "coq"), CQ)
+        shutil.copytree(os.path.join(HERE, "coq"), CQ)
     results = []
     try:
         base = sh("cd %s && python3 %s/tools/translate_regs.py --out=%s/Gen && timeout 1200 make -j12 Props/C13Gen.vo 2>&1 | tail -3" % (
-            CQ, VERIF, CQ))
+            CQ, HERE, CQ))
         print("baseline (unchanged worktree):", "ok" if "Error" not in base.stdout else base.stdout)
         for label, rel, old, new, occ, expect in MUTATIONS:
             if only and only not in label:
@@ -99,7 +125,7 @@ def main():
                 continue
             open(path, "w").write(src[:idx] + new + src[idx + len(old):])
             t0 = time.time()
-            tr = sh("VERIF_REPO=%s python3 %s/tools/translate_regs.py --out=%s/Gen" % (WT, VERIF, CQ))
+            tr = sh("VERIF_REPO=%s python3 %s/tools/translate_regs.py --out=%s/Gen" % (WT, HERE, CQ))
             terr = [ln for ln in tr.stdout.splitlines() if ln.startswith("TRANSLATE-ERROR")]
             mk = sh("cd %s && timeout 1500 make -k -j12 Props/C13Gen.vo 2>&1" % CQ)
             errs = all_errors(mk.stdout)
